@@ -5,3 +5,13 @@ claim("C09", "reference-model monitor: real Scan vs independent longest-match to
       "Every input of a complete enumeration of short strings over two 16-symbol alphabets (all scanner states), of seeded byte strings, token soups and corpus prefixes is scanned by the real lexer in a monitored worker; an independently written tokenizer and four boundary invariants decide each execution. Held = no difference on the executions listed in the evidence; it is not a proof for longer inputs.",
       "Trusts the reference tokenizer (pqlref/tokens.go, written from the property text), math/big, and the Go runtime; error-token messages are not compared.",
       "DESIGN.md section 5, C09")
+
+claim("C15", "invariant monitor at the API boundary: SplitStatements vs Scan vs Parse vs Compile on exhaustive short strings and semicolon insertion at every byte offset",
+      "Every input is split, scanned, parsed and compiled by the real code in monitored workers; join/count/no-semicolon/sub-list invariants and statement-by-statement agreement between whole-source and per-piece results decide each execution. Exhaustive over all strings of <=5/6 symbols of a 15-symbol separator/quote/comment alphabet, plus ';' inserted at every offset of a corpus of programs.",
+      "Trusts only the comparison code and the reflection dumper (pqlref/dump.go); no reference model is needed because the property relates the implementation's own entry points to each other.",
+      "DESIGN.md section 5, C15")
+
+claim("C12", "totality monitor: panic capture, build-tagged step-counting hooks (logical non-progress bound), per-case CPU/heap watchdog in sacrificial worker processes over pathological, random and site-guided mutated inputs",
+      "Every input is pushed through Scan, SplitStatements, Parse, Walk and Compile (with and without parameters) in worker processes; a panic, more than 2e9 instrumented loop steps in one call, a CPU overrun that repeats in a solo re-run, a heap blow-up or the death of the worker refutes the property with that input as witness. 'Never hangs' is decided as bounded progress, not as an unbounded eventuality.",
+      "Bounds are restatements chosen >=50x above the largest legitimate measurements (reported in the evidence); loops without a hook are only covered by the CPU watchdog. Known finding let-amplification is listed in known-findings.txt.",
+      "DESIGN.md section 5, C12")
